@@ -456,6 +456,8 @@ func ctreeMain(args []string) error {
 		return ctreeRandom(args[1:])
 	case "replay":
 		return ctreeReplay(args[1:])
+	case "conc":
+		return ctreeConc(args[1:])
 	}
 	return fmt.Errorf("ctree: unknown mode %q", args[0])
 }
